@@ -1958,4 +1958,113 @@ example : (run ((submittedOf (applyAll {} [.setTracing true, .setProfile (some 0
 
 end provenance
 
+/-! ### 10. the pager's plan against RANDOM shards (`pager.rs:337-365` after `plan.rs:94-107`)
+
+`Plan` resolves a shard-less entry to a random shard BEFORE the pager's filter sees it, so the filter compares
+(node, resolved shard) with the last coordinator.  The draws are an argument: `resolveWith r raw` gives the entry at
+plan position `i` the shard `r i` if it has none — for EVERY `r : Nat → Nat`; it is the same thing as `resolveAll`
+over all draw lists (`resolveAll_is_resolveWith`, `resolveWith_is_resolveAll`).  (Run side: `pplan` cases still script
+explicit shards on sharded nodes; these theorems are about the model only.) -/
+section randomShard
+
+/-- The policy's entries with the shard-less ones resolved by the draw function (`r 0` for the head, shifted). -/
+def resolveWith (r : Nat → Nat) : List RawTarget → List PlanTarget
+  | [] => []
+  | (n, os) :: rest => (n, os.getD (r 0)) :: resolveWith (fun i => r (i + 1)) rest
+
+theorem resolveAll_is_resolveWith (raw : List RawTarget) (ρ : List Nat) : ∃ r, resolveAll raw ρ = resolveWith r raw := by
+  induction raw generalizing ρ with
+  | nil => exact ⟨fun _ => 0, rfl⟩
+  | cons e rest ih =>
+    obtain ⟨n, os⟩ := e
+    cases os with
+    | some s =>
+      obtain ⟨r', h⟩ := ih ρ
+      exact ⟨fun i => r' (i - 1), by simp [resolveAll, resolveWith, h]⟩
+    | none =>
+      cases ρ with
+      | nil =>
+        obtain ⟨r', h⟩ := ih []
+        exact ⟨fun i => if i = 0 then 0 else r' (i - 1), by simp [resolveAll, resolveWith, h]⟩
+      | cons x ρ' =>
+        obtain ⟨r', h⟩ := ih ρ'
+        exact ⟨fun i => if i = 0 then x else r' (i - 1), by simp [resolveAll, resolveWith, h]⟩
+
+theorem resolveWith_is_resolveAll (r : Nat → Nat) (raw : List RawTarget) : ∃ ρ, resolveWith r raw = resolveAll raw ρ := by
+  induction raw generalizing r with
+  | nil => exact ⟨[], rfl⟩
+  | cons e rest ih =>
+    obtain ⟨n, os⟩ := e
+    obtain ⟨ρ', h⟩ := ih (fun i => r (i + 1))
+    cases os with
+    | some s => exact ⟨ρ', by simp [resolveAll, resolveWith, h]⟩
+    | none => exact ⟨r 0 :: ρ', by simp [resolveAll, resolveWith, h]⟩
+
+theorem resolveWith_append (r : Nat → Nat) (pre post : List RawTarget) :
+    resolveWith r (pre ++ post) = resolveWith r pre ++ resolveWith (fun i => r (i + pre.length)) post := by
+  induction pre generalizing r with
+  | nil => simp [resolveWith]
+  | cons e pre ih =>
+    obtain ⟨n, os⟩ := e
+    simp only [List.cons_append, resolveWith, ih, List.length_cons]
+    rfl
+
+/-- **Whatever the draws answer, the plan of one page names no target twice** — from the hypothesis on the policy's
+raw entries only (pairwise different targets, a shard-less entry covering every shard of its node). -/
+theorem pagerPlan_random_shard_nodup (sharded : Nat → Bool) (coord : Option (Nat × Option Nat)) (raw : List RawTarget)
+    (r : Nat → Nat) (h : raw.Pairwise (fun a b => ¬ rawSame sharded a b))
+    (hcoord : ∀ cn cs, coord = some (cn, cs) → (cs = none ↔ sharded cn = false)) :
+    ((pagerPlan coord (resolveWith r raw)).map (canonTarget sharded)).Nodup := by
+  obtain ⟨ρ, hρ⟩ := resolveWith_is_resolveAll r raw
+  rw [hρ]
+  exact pagerPlan_nodup_of_targets sharded coord _ (resolved_nodup sharded raw ρ h) hcoord
+
+/-- **The previous coordinator is first under every draw, whether or not the policy's plan still names it** (the
+stability target is prepended unconditionally — "first iff still in the plan" is NOT what the code does), it is not
+named again behind the head, and every other target of the plan is kept. -/
+theorem pagerPlan_coordinator_first (cn cs : Nat) (raw : List RawTarget) (r : Nat → Nat) :
+    let page := pagerPlan (some (cn, some cs)) (resolveWith r raw)
+    page.head? = some (cn, cs) ∧ (cn, cs) ∉ page.tail ∧
+    ∀ t ∈ resolveWith r raw, t ≠ (cn, cs) → t ∈ page.tail := by
+  simp only [pagerPlan, List.head?_cons, List.tail_cons, Option.getD_some, true_and]
+  refine ⟨fun hmem => ?_, fun t ht hne => List.mem_filter.mpr ⟨ht, ?_⟩⟩
+  · have := (List.mem_filter.mp hmem).2
+    simp at this
+  · obtain ⟨a, b⟩ := t
+    have : ¬ (a = cn ∧ cs = b) := fun ⟨h1, h2⟩ => hne (by rw [h1, h2])
+    simp only [beq_eq_false_iff_ne, ne_eq, Bool.not_and, Bool.or_eq_true, Bool.not_eq_eq_eq_not, Bool.not_true]
+    by_cases h1 : a = cn
+    · exact Or.inr (fun h2 => this ⟨h1, h2⟩)
+    · exact Or.inl h1
+
+/-- **A shard-less entry on the coordinator's node is dropped exactly when the draw for its position resolves it to the
+coordinator's shard**: with the entry at position `pre.length` of the policy's plan, the page's plan is the coordinator,
+the kept part before it, the entry itself as `(cn, r pre.length)` iff `r pre.length ≠ cs`, the kept part behind it. -/
+theorem pagerPlan_filter_iff (cn cs : Nat) (pre post : List RawTarget) (r : Nat → Nat) :
+    let keep : PlanTarget → Bool := fun t => !(t.1 == cn && cs == t.2)
+    pagerPlan (some (cn, some cs)) (resolveWith r (pre ++ (cn, none) :: post)) =
+      (cn, cs) :: ((resolveWith r pre).filter keep ++ (if r pre.length = cs then [] else [(cn, r pre.length)]) ++
+        (resolveWith (fun i => r (i + (pre.length + 1))) post).filter keep) := by
+  simp only [pagerPlan, resolveWith_append, resolveWith, Option.getD_some, Option.getD_none, List.filter_append,
+    List.filter_cons, Nat.zero_add, List.cons.injEq, true_and, List.append_assoc]
+  have hf : (fun i => r (i + 1 + pre.length)) = (fun i => r (i + (pre.length + 1))) := by
+    funext i; congr 1; omega
+  by_cases hr : r pre.length = cs
+  · simp [hr, hf]
+  · have : ¬ cs = r pre.length := fun h => hr h.symm
+    simp [hr, this, hf]
+
+-- non-vacuity: sharded node 1 (4 shards), coordinator (1, 2), policy plan 0:- 1:- 2:- (pairwise different targets):
+-- the draw for position 1 resolves to the coordinator's shard: dropped …
+example : pagerPlan (some (1, some 2)) (resolveWith (fun i => [0, 2, 3].getD i 0) [(0, none), (1, none), (2, none)])
+    = [(1, 2), (0, 0), (2, 3)] := by decide
+-- … to another shard: kept as a different target on the same node
+example : pagerPlan (some (1, some 2)) (resolveWith (fun i => [0, 1, 3].getD i 0) [(0, none), (1, none), (2, none)])
+    = [(1, 2), (0, 0), (1, 1), (2, 3)] := by decide
+example : [((0 : Nat), (none : Option Nat)), (1, none), (2, none)].Pairwise
+    (fun a b => ¬ rawSame (fun n => n == 1) a b) := by
+  simp [rawSame]
+
+end randomShard
+
 end ScyllaVerif.Props.C13
